@@ -32,4 +32,11 @@ func init() {
 		Real:        append([]string{"vm.Generator / CallGeneratorNext", "callBytecodePromise", "vm.Promise settlement", "vm.ThreadPool"}, realAll...),
 		Stub:        stubAll,
 	}
+	engineTable["C25"] = engineInfo{
+		Engine:      "C25",
+		Rule:        "case = one workload x one schedule. Go-API family (55%): 2-5 client tasks x 1-5 operations (Push/PushCtx/Pop/PopCtx/NextValue/Close, unique values) on one value.ChannelOfValue of capacity 0-3, closed by a peer after a PRNG-chosen number of steps and then cancelled, history checked with porcupine against a FIFO queue with a closed flag; Mutex / RWMutex clients with shadow inside-counters and torn-read detection; WaitGroup waiters. Elk family (45%): generated programs - producers/consumers over a channel read with for-in, <<ch or pop, close by main; lock-protected counters with Mutex or RWMutex and readers checking a two-field invariant; select over two channels with disjoint value ranges plus else and send cases; Once#call from several threads; WaitGroup; misuse sequences (unlock unlocked, read_unlock unlocked, double close, push/pop after close, drain then pop, unlock from another thread). Oracle: exactly-once delivery, per-producer order, mutual exclusion, run-once, documented error classes, no Go panic, no process death. Non-trivial: >= 2 context switches (misuse programs always); distinct: hash of (workload, schedule trace)",
+		Assumptions: commonAssumptions,
+		Real:        append([]string{"value.ChannelOfValue and views", "value.Mutex / RWMutex / WaitGroup / Once", "vm select (opSelect, reflect.Select determinised)", "vm go threads"}, realAll...),
+		Stub:        stubAll,
+	}
 }
